@@ -64,7 +64,7 @@ Print Assumptions C10_slice_zero_width_chars_are_a_subsequence.
 
 (* ---- the slice character by character, zero-width characters included ----------
    The column view above cannot see a zero-width character (it occupies no column);
-   the three theorems below speak about the full cell list of the result
+   the two theorems below speak about the full cell list of the result
    (characters with their graphic state).  Reference notions, Spec/Columns.v:
      positions p cs       every character with the column at which it starts
      keep_char a b (s,x)  x of width w at column s against [a, b): kept when w > 0 and
@@ -72,51 +72,34 @@ Print Assumptions C10_slice_zero_width_chars_are_a_subsequence.
                           one of its columns is inside; kept when w = 0 and a < s <= b
                           (a combining character belongs to the character ending at s;
                           "no zero-width characters at the beginning of a slice"); else dropped
-     slice_ref a b cs     = flat_map (keep_char a b) (positions 0 cs)   (no run layout)
-     slice_ref_runs a b f the same, except for the zero-width characters standing at the
-                          very beginning of a run (column K, run end E): kept iff a < K < b
-                          when the run has width 0, iff a <= K and E <= b otherwise.
-   The first theorem is the exact description of the code for EVERY run layout.  The
-   run-dependent clause is needed: the code's treatment of a run's leading marks is
-   not a function of the cells (see the _refuted examples below).                    *)
+     slice_ref a b cs     = flat_map (keep_char a b) (positions 0 cs)
+     marks_in_range a b cs  the zero-width cells of cs whose column s has a < s <= b
+   Both are functions of the cells of f: the run layout plays no part.              *)
 
-(* cells of the slice = the run-aware reference, for all f and all 0 <= a, 0 <= b
-   (the space needs no hypothesis: a replacement cell is (32, state) whatever wc 32 is) *)
-Theorem C10_slice_cells_are_the_run_aware_reference :
+(* cells of the slice = the reference, for ALL f (any run layout) and all 0 <= a, 0 <= b
+   (for b < a both sides are empty; no hypothesis on the space is needed: a replacement
+   cell is (32, state) whatever wc 32 is) *)
+Theorem C10_slice_cells_are_the_reference :
   forall (wc : char -> Z) (f : fmtstr) (a b : Z),
     (forall c, In c (text f) -> wc c = 0 \/ wc c = 1 \/ wc c = 2) ->
-    0 <= a -> 0 <= b ->
-    exists r, fs_was wc f (IxSlice (Some a) (Some b)) = Ok r /\
-              cells r = slice_ref_runs wc a b f.
-Proof. exact slice_cells_exact. Qed.
-Print Assumptions C10_slice_cells_are_the_run_aware_reference.
-
-(* where no run begins with a zero-width character, the run layout is immaterial:
-   cells of the slice = the layout-independent reference applied to the cells of f *)
-Theorem C10_slice_cells_are_the_reference_when_no_run_begins_with_a_mark :
-  forall (wc : char -> Z) (f : fmtstr) (a b : Z),
-    (forall c, In c (text f) -> wc c = 0 \/ wc c = 1 \/ wc c = 2) ->
-    no_leading_marks wc f = true ->
     0 <= a -> 0 <= b ->
     exists r, fs_was wc f (IxSlice (Some a) (Some b)) = Ok r /\
               cells r = slice_ref wc a b (cells f).
-Proof. exact slice_cells_ideal. Qed.
-Print Assumptions C10_slice_cells_are_the_reference_when_no_run_begins_with_a_mark.
+Proof. exact slice_cells. Qed.
+Print Assumptions C10_slice_cells_are_the_reference.
 
-(* every zero-width character whose column lies strictly inside (a, b) is in the slice,
-   with its own formatting, in order - for every f in which a run that begins with a
-   zero-width character consists of zero-width characters only (an accent formatted
-   differently from its base letter is such a run).  Without that hypothesis the
-   statement is FALSE of the code: C10_every_inner_mark_is_kept_refuted *)
-Theorem C10_slice_keeps_zero_width_chars_strictly_inside :
-  forall (wc : char -> Z) (f : fmtstr) (a b : Z),
+(* the zero-width characters of the slice are EXACTLY the zero-width characters of f
+   whose column s satisfies a < s <= b, each with its own formatting, in order: every
+   one of those is kept, and none at column a, none beyond b, none invented *)
+Theorem C10_slice_keeps_exactly_the_zero_width_chars_of_its_columns :
+  forall (wc : char -> Z), wc 32%N = 1 ->
+  forall (f : fmtstr) (a b : Z),
     (forall c, In c (text f) -> wc c = 0 \/ wc c = 1 \/ wc c = 2) ->
-    marks_lead_only_mark_runs wc f = true ->
     0 <= a -> 0 <= b ->
     exists r, fs_was wc f (IxSlice (Some a) (Some b)) = Ok r /\
-              subseq (inner_marks wc a b (cells f)) (zw_cells wc (cells r)).
-Proof. exact slice_keeps_inner_marks. Qed.
-Print Assumptions C10_slice_keeps_zero_width_chars_strictly_inside.
+              zw_cells wc (cells r) = marks_in_range wc a b (cells f).
+Proof. exact slice_marks. Qed.
+Print Assumptions C10_slice_keeps_exactly_the_zero_width_chars_of_its_columns.
 
 (* the hypotheses are inhabited by a non-trivial input: a, wide E, combining grave
    in one run, wide E in another; columns 2..4 cut both wide characters *)
@@ -139,23 +122,24 @@ Proof.
   - repeat split; vm_compute; reflexivity.
 Qed.
 
-(* non-vacuity of the three character-level theorems: a run made of a combining
+(* non-vacuity of the two character-level theorems: a run made of a combining
    character only (red, bold), strictly inside the range 0..2, between two narrow
    characters of other formatting: the accent is kept with its own state *)
 Definition ex_g : fmtstr :=
   [C [97]%N (A 0 0 0 0 0 0 0 0); C [768]%N (A 2 0 1 0 0 0 0 0); C [98; 99]%N (A 0 5 0 0 0 0 0 0)].
 Example C10_slice_cells_nonvacuous :
   (forall c, In c (text ex_g) -> ex_wc c = 0 \/ ex_wc c = 1 \/ ex_wc c = 2) /\
-  marks_lead_only_mark_runs ex_wc ex_g = true /\
-  no_leading_marks ex_wc ex_g = false /\
-  inner_marks ex_wc 0 2 (cells ex_g) = [(768%N, Sg 2 0 1 0 0 0 0 0)] /\
-  slice_ref_runs ex_wc 0 2 ex_g =
+  marks_in_range ex_wc 0 2 (cells ex_g) = [(768%N, Sg 2 0 1 0 0 0 0 0)] /\
+  slice_ref ex_wc 0 2 (cells ex_g) =
     [(97%N, Sg 0 0 0 0 0 0 0 0); (768%N, Sg 2 0 1 0 0 0 0 0); (98%N, Sg 0 5 0 0 0 0 0 0)] /\
   fs_was ex_wc ex_g (IxSlice (Some 0) (Some 2)) =
     Ok [C [97]%N (A 0 0 0 0 0 0 0 0); C [768]%N (A 2 0 1 0 0 0 0 0); C [98]%N (A 0 5 0 0 0 0 0 0)] /\
-  (* and of the layout-independent one: ex_f has no run beginning with a mark; columns 2..4
-     hold the right half of the first wide E with its accent, and the left half of the second *)
-  no_leading_marks ex_wc ex_f = true /\
+  (* at the start column the accent is not part of the slice, at the end column it is *)
+  fs_was ex_wc ex_g (IxSlice (Some 1) (Some 2)) = Ok [C [98]%N (A 0 5 0 0 0 0 0 0)] /\
+  fs_was ex_wc ex_g (IxSlice (Some 0) (Some 1)) =
+    Ok [C [97]%N (A 0 0 0 0 0 0 0 0); C [768]%N (A 2 0 1 0 0 0 0 0)] /\
+  (* columns 2..4 of ex_f hold the right half of the first wide E with its accent, and the
+     left half of the second *)
   slice_ref ex_wc 2 4 (cells ex_f) =
     [(32%N, Sg 2 0 1 0 0 0 0 0); (768%N, Sg 2 0 1 0 0 0 0 0); (32%N, Sg 0 5 0 0 0 0 0 0)].
 Proof.
@@ -165,57 +149,23 @@ Proof.
   - repeat split; vm_compute; reflexivity.
 Qed.
 
-(* REFUTED for the code as it is: "every zero-width character strictly inside the range
-   is kept" without the hypothesis on run beginnings.  a | grave b c (second run red):
-   the accent sits at column 1, strictly inside 0..2, and is DROPPED, because its run is
-   cut by the right edge and the helper takes local column 0 of that run for "the
-   beginning of the slice".  (Python: FmtStr(Chunk('a'), Chunk('\u0300bc', {'fg': 31}))
-   .width_aware_slice(slice(0, 2)) -> 'a' + red 'b'; slice(0, 3) keeps the accent, and so
-   does slice(0, 2) of the single run 'a\u0300bc'.) *)
-Definition ex_h : fmtstr := [C [97]%N (A 0 0 0 0 0 0 0 0); C [768; 98; 99]%N (A 2 0 0 0 0 0 0 0)].
-Example C10_every_inner_mark_is_kept_refuted :
-  (forall c, In c (text ex_h) -> ex_wc c = 0 \/ ex_wc c = 1 \/ ex_wc c = 2) /\
-  marks_lead_only_mark_runs ex_wc ex_h = false /\
-  inner_marks ex_wc 0 2 (cells ex_h) = [(768%N, Sg 2 0 0 0 0 0 0 0)] /\
-  slice_ref ex_wc 0 2 (cells ex_h) =
-    [(97%N, Sg 0 0 0 0 0 0 0 0); (768%N, Sg 2 0 0 0 0 0 0 0); (98%N, Sg 2 0 0 0 0 0 0 0)] /\
-  exists r, fs_was ex_wc ex_h (IxSlice (Some 0) (Some 2)) = Ok r /\
-            cells r = [(97%N, Sg 0 0 0 0 0 0 0 0); (98%N, Sg 2 0 0 0 0 0 0 0)] /\
-            zw_cells ex_wc (cells r) = [].
-Proof.
-  split.
-  - intros c Hc. cbn in Hc.
-    repeat (destruct Hc as [<-|Hc]; [vm_compute; auto|]). contradiction.
-  - repeat split; try (vm_compute; reflexivity).
-    eexists. repeat split; vm_compute; reflexivity.
-Qed.
-
-(* REFUTED for the code as it is: "the cells of the slice are a function of the cells of
-   f and of the range" (so no layout-independent reference can be exact).  Same cells,
-   same range, different run layout, different result:
-     a | grave b  (1..2): the whole second run lies inside and is reused, accent included;
-     a grave b    (1..2): the helper drops the accent at the start column;
-     a | grave    (0..1): the accent's run starts at the end column and is skipped;
-     a grave      (0..1): the whole run is reused, accent included *)
+(* the three inputs on which the code before the repository fix 3b8c3df disagreed with the
+   reference (the fate of a run's leading combining characters depended on the run layout;
+   record in Proofs/Width.v, corpus/C10/fix-3b8c3df.json), with what the fixed code returns:
+     a | grave b c (red)  0..2 : accent at column 1 kept          (was dropped)
+     a | grave b          1..2 : accent at the start column gone  (was kept)
+     a | grave            0..1 : accent at the end column kept    (was dropped)
+   and each agrees with the same cells in a single run *)
 Definition pl : atts := A 0 0 0 0 0 0 0 0.
-Example C10_slice_is_a_function_of_the_cells_refuted :
-  cells [C [97]%N pl; C [768; 98]%N pl] = cells [C [97; 768; 98]%N pl] /\
-  (exists r1 r2,
-     fs_was ex_wc [C [97]%N pl; C [768; 98]%N pl] (IxSlice (Some 1) (Some 2)) = Ok r1 /\
-     fs_was ex_wc [C [97; 768; 98]%N pl] (IxSlice (Some 1) (Some 2)) = Ok r2 /\
-     cells r1 = [(768%N, Sg 0 0 0 0 0 0 0 0); (98%N, Sg 0 0 0 0 0 0 0 0)] /\
-     cells r2 = [(98%N, Sg 0 0 0 0 0 0 0 0)]) /\
-  cells [C [97]%N pl; C [768]%N pl] = cells [C [97; 768]%N pl] /\
-  (exists r1 r2,
-     fs_was ex_wc [C [97]%N pl; C [768]%N pl] (IxSlice (Some 0) (Some 1)) = Ok r1 /\
-     fs_was ex_wc [C [97; 768]%N pl] (IxSlice (Some 0) (Some 1)) = Ok r2 /\
-     cells r1 = [(97%N, Sg 0 0 0 0 0 0 0 0)] /\
-     cells r2 = [(97%N, Sg 0 0 0 0 0 0 0 0); (768%N, Sg 0 0 0 0 0 0 0 0)]).
-Proof.
-  split; [reflexivity|]. split.
-  - do 2 eexists. repeat split; vm_compute; reflexivity.
-  - split; [reflexivity|]. do 2 eexists. repeat split; vm_compute; reflexivity.
-Qed.
+Definition rd : atts := A 2 0 0 0 0 0 0 0.
+Example C10_fixed_witnesses :
+  fs_was ex_wc [C [97]%N pl; C [768; 98; 99]%N rd] (IxSlice (Some 0) (Some 2)) =
+    Ok [C [97]%N pl; C [768; 98]%N rd] /\
+  fs_was ex_wc [C [97]%N pl; C [768; 98]%N pl] (IxSlice (Some 1) (Some 2)) = Ok [C [98]%N pl] /\
+  fs_was ex_wc [C [97; 768; 98]%N pl] (IxSlice (Some 1) (Some 2)) = Ok [C [98]%N pl] /\
+  fs_was ex_wc [C [97]%N pl; C [768]%N pl] (IxSlice (Some 0) (Some 1)) = Ok [C [97]%N pl; C [768]%N pl] /\
+  fs_was ex_wc [C [97; 768]%N pl] (IxSlice (Some 0) (Some 1)) = Ok [C [97; 768]%N pl].
+Proof. repeat split; vm_compute; reflexivity. Qed.
 
 (* tie of the model's interval_overlap to the function text in the repository: Gen/Pure.v
    holds the syntax tree of curtsies.formatstring.interval_overlap dumped from the Python
